@@ -506,11 +506,11 @@ def finish(total, tier, seed):
 
 MANIFEST = dict(
     text="Bounded exhaustive enumeration of definition/declaration + modification programs on the real parser against "
-         "a reference interpretation of the generating AST: 74 families (bool/int/float/str and sized variants x unit "
+         "a reference interpretation of the generating AST: 78 families (bool/int/float/str and sized variants x unit "
          "none/m/cm/J/custom x scalar/[2] array x definition with normal/falsy/none value or declaration), every "
          "sequence of 1-2 modifications (typed/untyped x 0/negative/positive/false/''/none x unit omitted/same/two "
          "other units), length 3 over a core alphabet for all families and over the full alphabet for the seed's window "
-         "(thorough: all), five placements (root, group, dotted path, re-opened group, DIP(env) chain) and negative "
+         "(1 of 26 windows, chosen by VERIF_SEED; thorough: all windows), five placements (root, group, dotted path, re-opened group, DIP(env) chain) and negative "
          "programs (other data type, other dimension, constant, never assigned, undefined node) that must be rejected.",
     note="Unit factors hand-written (SI definitions), converted values compared to 1e-12 relative. Not covered: none "
          "with a unit, units on unit-less nodes, non-integral integer conversions, non-linear units, shape changes.",
